@@ -20,6 +20,12 @@ Two layers.
   copy-on-write is invisible, self-assignment and self-swap leave the whole machine state unchanged,
   and the machine refines the value specification.
 
+The machine is tied to the class template itself: the harness drives `Determinate<C_Polyhedron>` and
+`Determinate<Grid>` through the machine's operations (including `d = d` for a sole owner and for a
+shared `Rep`, assignment between two handles of one `Rep`, self-swap, destruction in any order) and
+`pplv_c13` runs `Cow.step` in lock step: values, liveness, the partition of the handles by `Rep`,
+double deletes and the final live-block count must agree after every operation.
+
 Outside `Determinate` the sharing mechanisms of the library (recycling entry points, row swapping,
 lazy updates of `const` arguments) are validated by the correspondence run, not modelled.
 -/
